@@ -72,11 +72,15 @@ def run(ctx):
     #    each put wherever a descriptor entry is derived from a name (json_name, synthetic oneof, map entry, group field)
     shape_ids = G.shape_ids(rng, ctx.budget(3, 4), ctx.budget(40, 400))
     shapes = G.shape_sets(shape_ids)
-    corpus = [(l, fs) for l, fs in G.CORPUS] + shapes
+    # enumerated rule strata: what max / the largest number means in every kind of range (range ends are part of the projection),
+    # and the reserved names / ranges of messages and enums in both spellings (the accepted ones reach the comparison)
+    rules = G.max_sets() + G.dup_sets()
+    corpus = [(l, fs) for l, fs in G.CORPUS] + shapes + rules
     parsed = G.parse_sets(ctx, [fs for _, fs in corpus])
     cc = [("corpus:" + l, asts, fs) for (l, fs), (asts, why) in zip(corpus, parsed) if asts is not None and not why]
     shape_unfit = [(l, why) for (l, fs), (asts, why) in zip(corpus, parsed) if l.startswith("shape-") and (asts is None or why)]
-    progs = G.gen_cases(rng, ctx.budget(30, 2500), ctx.budget(2, 3), small=(ctx.tier != "thorough"), extended=True, idshapes=True)
+    progs = G.gen_cases(rng, ctx.budget(30, 2500), ctx.budget(2, 3), small=(ctx.tier != "thorough"), extended=True, idshapes=True,
+                        focus=("max_range", "reserved_dup"))
     texts = G.render_sets(rng, progs)
     allc = cc + [(label, files, t) for (label, files), t in zip(progs, texts)]
     outs = ctx.impl("miniproto", G.compile_inputs([t for _, _, t in allc], [[f["name"] for f in files] for _, files, _ in allc]))
@@ -93,7 +97,8 @@ def run(ctx):
             continue
         nfields = sum(len(m["fields"]) for fd in o["fds"] for m in fd["messages"])
         ctx.count((label, repr(sorted(G.plain_text(files).items()))), True,
-                  "accepted:" + ("valid" if label == "valid" else "id-shape" if label.startswith("corpus:shape-") else "near-valid"))
+                  "accepted:" + ("valid" if label == "valid" else "id-shape" if label.startswith("corpus:shape-") else
+                                 "range-max" if label.startswith("corpus:max-") else "reserved-rules" if label.startswith("corpus:dup-") else "near-valid"))
         cases.append((label, files, t, o))
         terms.append(ts[0])
     for c in cases[:1] + cases[len(cc):len(cc) + 2]:
@@ -140,9 +145,24 @@ def run(ctx):
     if len(sh) - len(rej) < len(shapes) // 2:
         ctx.corr_break("miniproto:identifier-shapes-vacuous", {"file_sets": len(shapes), "compared": len(sh) - len(rej)},
                        {"note": "fewer than half of the identifier-shape file sets are accepted by both sides: the stratum decides nothing"})
+    # the range stratum must not be vacuous either: ranges written with max in message-set messages, ordinary messages and
+    # enums must reach the comparison (accepted by the compiler) and be accepted by the specification
+    mx = [c for c in cases if c[0].startswith("corpus:max-")]
+    mrej, err = G.cached_eval("cases_C02_max_spec", [G.spec_term(c[1], True) for c in mx], "spec_valid_chk", max(8, len(mx) // (2 * NCPU) + 1))
+    if err:
+        raise RuntimeError(err)
+    mrej = set(mrej)
+    both = [c[0] for i, c in enumerate(mx) if i not in mrej]
+    per = {k: sum(1 for l in both if (":" + k + "-") in l) for k in ("plain", "msgset", "enum")}
+    ctx.extra["range_max_stratum"] = {"file_sets": len(G.max_sets()), "accepted_by_implementation": len(mx), "of_those_accepted_by_specification": len(both),
+                                      "by_kind": per, "reserved_rule_file_sets_compared": sum(1 for c in cases if c[0].startswith("corpus:dup-"))}
+    if min(per.values()) < 8:
+        ctx.corr_break("miniproto:range-max-vacuous", per, {"note": "too few file sets of the range stratum are accepted by both sides: the stratum decides nothing"})
     ctx.rule = ("(a) ASCII strings: all of length <= %d over {a,Z,_,9} + random; (b) accepted file sets: boundary corpus, identifier shapes (every identifier of length <= %d "
                 "over {a,Z,_,9}, X-prefixed look-alikes and random longer ones as proto3-optional field with and without declared names on its "
-                "candidate chain, oneof member, map field, extension, group; proto2 / proto3 / editions), generated valid programs (field, oneof "
+                "candidate chain, oneof member, map field, extension, group; proto2 / proto3 / editions), enumerated range rules (max and the largest number in "
+                "extension / reserved / enum reserved ranges of ordinary and message-set messages, option before / after, nested either way; reserved names in "
+                "both spellings), generated valid programs (field, oneof "
                 "and group names of all identifier shapes) and accepted near-valid mutants; distinct = distinct string / canonical source text; a program case is non-trivial when it compiled "
                 "(its descriptors are compared field by field with the mirror and with the protoc specification)" % (ctx.budget(5, 7), ctx.budget(3, 4)))
 
